@@ -888,7 +888,9 @@ func (e Engine) Run(t *simrt.Tape, c simrt.Case, x *simrt.Ctx) *simrt.Result {
 	// quick: a tape-chosen subset; thorough: every site
 	limit := 24
 	if x.Tier == "thorough" {
-		limit = 1 << 30
+		// every site, except for the few scenarios whose generated files are written in thousands of
+		// small pieces (20 minutes for one scenario): those are sampled as well
+		limit = 1200
 	}
 	type pick struct {
 		st   site
